@@ -13,6 +13,7 @@ import (
 	"math/rand"
 	"os"
 	"path/filepath"
+	"reflect"
 	"runtime"
 	"sort"
 	"strings"
@@ -48,6 +49,7 @@ type ctx struct {
 	f      []*os.File
 	count  []int
 	rr     int
+	kinds  map[string]int // events written, by kind
 }
 
 func (c *ctx) thorough() bool { return c.tier == "thorough" }
@@ -109,12 +111,46 @@ func (c *ctx) emitTo(s int, v interface{}) {
 			fatal(err)
 		}
 	}
+	kind := kindOf(v)
 	c.mu.Lock()
 	c.w[s].Write(b)
 	c.w[s].WriteByte('\n')
 	c.count[s]++
+	if c.kinds == nil {
+		c.kinds = map[string]int{}
+	}
+	c.kinds[kind]++
 	c.mu.Unlock()
 	progress()
+}
+
+// kindOf reads the event's kind (member "k") without parsing the document again: the summary line lists how many
+// events of each kind were written, so that a generator branch that silently stopped producing is noticed (the
+// check compares the list with spec/expected_kinds.json).
+func kindOf(v interface{}) string {
+	switch e := v.(type) {
+	case map[string]interface{}:
+		if k, ok := e["k"].(string); ok {
+			if fn, ok := e["fn"].(string); ok { // the entry point or sub-generator, where the event names one
+				return k + "/" + fn
+			}
+			return k
+		}
+	default:
+		rv := reflect.ValueOf(v)
+		if rv.Kind() == reflect.Ptr {
+			rv = rv.Elem()
+		}
+		if rv.Kind() == reflect.Struct {
+			if f := rv.FieldByName("K"); f.IsValid() && f.Kind() == reflect.String {
+				if fn := rv.FieldByName("Fn"); fn.IsValid() && fn.Kind() == reflect.String && fn.String() != "" {
+					return f.String() + "/" + fn.String()
+				}
+				return f.String()
+			}
+		}
+	}
+	return "?"
 }
 
 func denull(x interface{}) interface{} {
@@ -324,7 +360,11 @@ func main() {
 	for _, n := range c.count {
 		total += n
 	}
-	fmt.Printf("{\"family\":%q,\"events\":%d,\"shards\":%d}\n", name, total, c.shards)
+	kj, _ := json.Marshal(c.kinds)
+	if c.kinds == nil {
+		kj = []byte("{}")
+	}
+	fmt.Printf("{\"family\":%q,\"events\":%d,\"shards\":%d,\"kinds\":%s}\n", name, total, c.shards, kj)
 }
 
 // readCases reads TLC-generated cases: one JSON document per line.
